@@ -3,16 +3,24 @@
 Decided: (a) formulating an aligned model cannot fail on an unguarded ``remove``
 (R-GUARD); (b) the alignment sums run over the spin range of the rotated state
 (R-WIRING); the loop of ``create_spin_range`` runs -s .. s in unit steps (R-RANGE).
+
+The rules about what a function COMPUTES (DPD summand / wiring / generator, the walk of the
+axis-angle chain, the arguments of the Wigner rotation) are judged on the values of sa/symex.py
+(symbolic execution: temporaries, unpacking, helper functions, keyword arguments, unrolled tables,
+comprehensions, while loops and recursion give the same value as the original spelling); a value the
+executor cannot follow is an ANALYSIS-ERROR, never a pass or a violation.
 """
 
 from __future__ import annotations
 
 import ast
+import re
 
 from ..dataflow import RD
 from ..inline import Inliner
 from ..loader import AnalysisError, FuncInfo, Tree, ancestors, unparse, walk_function
 from ..report import Check
+from ..symex import NONE, SymEx, alternatives, calls_of, cases, func_name, is_const, show, show_pc, subst, subterms
 
 PID = "C05"
 
@@ -42,9 +50,25 @@ def remove_is_guarded(call: ast.Call) -> str | None:
     recv = unparse(call.func.value)
     arg = unparse(call.args[0]) if call.args else ""
     child = call
+    enclosing = next((a for a in ancestors(call) if isinstance(a, (ast.FunctionDef, ast.AsyncFunctionDef))), None)
+    inl = Inliner(enclosing) if enclosing is not None else None
+
+    def through_temporaries(test: ast.AST) -> list[ast.AST]:
+        """conjuncts of a test; a conjunct that is a local name bound once (`has_zero = 0.0 in xs`) counts as its value,
+        provided the receiver is not modified in between (the value of the test is then still true at the call)"""
+        out = []
+        for c in _conjuncts(test):
+            if isinstance(c, ast.Name) and inl is not None:
+                d = inl.single_def(c)
+                if d is not None and d.kind == "assign" and d.index is None and isinstance(d.value, ast.AST) and not _modified_between(enclosing, d.node, call, recv):
+                    out.extend(_conjuncts(d.value))
+                    continue
+            out.append(c)
+        return out
+
     for anc in ancestors(call):
         if isinstance(anc, ast.If) and any(child is s or _contains(s, child) for s in anc.body):
-            for c in _conjuncts(anc.test):
+            for c in through_temporaries(anc.test):
                 if isinstance(c, ast.Compare) and len(c.ops) == 1 and isinstance(c.ops[0], ast.In):
                     if _same_value(c.left, call.args[0]) and unparse(c.comparators[0]) == recv:
                         return f"dominated by `{unparse(c)}`"
@@ -77,6 +101,20 @@ def remove_is_guarded(call: ast.Call) -> str | None:
     return None
 
 
+def _modified_between(fn: ast.AST, start: ast.AST, end: ast.AST, recv: str) -> bool:
+    """Is the container `recv` mentioned as receiver of a method call / assignment target on a line between the two nodes?"""
+    lo, hi = getattr(start, "end_lineno", start.lineno), end.lineno
+    for n in walk_function(fn):
+        line = getattr(n, "lineno", None)
+        if line is None or not (lo < line <= hi) or n is end or _contains(end, n):
+            continue
+        if isinstance(n, ast.Call) and isinstance(n.func, ast.Attribute) and unparse(n.func.value) == recv:
+            return True
+        if isinstance(n, (ast.Name, ast.Subscript, ast.Attribute)) and isinstance(getattr(n, "ctx", None), (ast.Store, ast.Del)) and unparse(n).split("[")[0] == recv:
+            return True
+    return False
+
+
 def _same_value(a: ast.AST, b: ast.AST) -> bool:
     if isinstance(a, ast.Constant) and isinstance(b, ast.Constant):
         return a.value == b.value
@@ -100,17 +138,31 @@ def _enclosing_block(node: ast.AST):
     return None
 
 
+def _raising_lookup(node: ast.AST) -> str | None:
+    """`recv.remove(x)` / `recv.index(x)`: both raise (ValueError / KeyError) when x is absent."""
+    if isinstance(node, ast.Call) and isinstance(node.func, ast.Attribute) and node.func.attr in {"remove", "index"} and len(node.args) == 1 and not node.keywords:
+        return node.func.attr
+    return None
+
+
 def check_removes(ctx: Check, tree: Tree) -> None:
+    """R-GUARD.  Instances = every `.remove(x)` (and `.index(x)`, which fails the same way and is what a
+    `remove` is usually rewritten to: `del l[l.index(x)]`) in the package.  The number of sites is not an
+    obligation: a site that was replaced by a construction that cannot raise (a filtering comprehension,
+    `discard`) simply is no instance any more.  What IS an obligation: no site of the source is skipped."""
     n = 0
+    judged: set[int] = set()
     for q, fn in sorted(tree.funcs.items()):
         if not q.startswith("ampform"):
             continue
         for node in walk_function(fn.node, nested=False):
-            if not (isinstance(node, ast.Call) and isinstance(node.func, ast.Attribute) and node.func.attr == "remove" and len(node.args) == 1):
+            kind = _raising_lookup(node)
+            if kind is None:
                 continue
             n += 1
+            judged.add(id(node))
             recv, arg = unparse(node.func.value), unparse(node.args[0])
-            what = f"{q}: {recv}.remove({arg})"
+            what = f"{q}: {recv}.{kind}({arg})"
             reason = remove_is_guarded(node)
             if reason:
                 ctx.ok("R-GUARD", tree.loc(node), f"{what} - {reason}")
@@ -126,15 +178,23 @@ def check_removes(ctx: Check, tree: Tree) -> None:
                     break
             ctx.violation(
                 "R-GUARD",
-                f"{q}::{recv}.remove({arg})",
+                f"{q}::{recv}.{kind}({arg})",
                 tree.loc(node),
                 what + guard,
                 "list.remove/set.remove raise ValueError/KeyError when the element is absent; "
                 "create_spin_range(1/2, no_zero_spin=True) has no 0.0 -> an aligned model with a massless spin-1/2 particle cannot be formulated",
             )
     ctx.stats["remove_sites"] = n
-    if n < 3:
-        raise AnalysisError(f"only {n} `.remove(` sites in the package (3 confirmed by hand)")
+    # completeness of the instance set: every such call anywhere in the package source (module level, class bodies,
+    # lambdas, decorators ...) must have been judged above
+    for name, mod in sorted(tree.modules.items()):
+        if not name.startswith("ampform"):
+            continue
+        for node in ast.walk(mod.tree):
+            if _raising_lookup(node) and id(node) not in judged:
+                raise AnalysisError(f"`{unparse(node)[:60]}` at {tree.loc(node)} is outside every indexed function: not judged")
+    if n == 0:
+        ctx.ok("R-GUARD", "src/ampform", "no `.remove(x)` / `.index(x)` call in the package: nothing can raise for an absent element")
 
 
 def _kwarg(call: ast.Call, fn: FuncInfo, name: str) -> ast.AST | None:
@@ -235,15 +295,64 @@ def check_wiring(ctx: Check, tree: Tree) -> None:
         raise AnalysisError(f"only {n_calls} callers of formulate_helicity_rotation (2 confirmed)")
 
 
-def check_spin_range(ctx: Check, tree: Tree) -> None:
-    fn = tree.func(SPIN_RANGE)
-    loops = [n for n in walk_function(fn.node) if isinstance(n, ast.While)]
-    if not loops:
-        ctx.info("R-RANGE", tree.loc(fn.node), "create_spin_range has no while loop any more: range shape not decided (informational)")
-        return
-    loop = loops[0]
-    rd = RD(fn.node)
+def _strip_numeric_casts(txt: str) -> str:
+    return txt.replace("Decimal(", "").replace("float(", "").replace(")", "").replace("(", "").replace(" ", "")
+
+
+def _range_loop(tree: Tree, fn: FuncInfo, depth: int = 0):
+    """(function, name of the spin magnitude inside it, while loop) of the loop that generates the
+    projections: in create_spin_range itself or in a helper of the package it hands the spin magnitude to
+    (`list(_generate_projections(float(spin_magnitude)))`)."""
     spin_param = fn.params[0]
+    loops = [n for n in walk_function(fn.node, nested=False) if isinstance(n, ast.While)]
+    if loops:
+        return fn, spin_param, loops[0]
+    if depth >= 2:
+        return None
+    rd = RD(fn.node)
+    inl = Inliner(fn.node, rd)
+    for call, callee in tree.calls_in(fn, nested=False):
+        target = tree.funcs.get(callee) if callee else None
+        if target is None or not callee.startswith("ampform") or target is fn:
+            continue
+        for p in target.params:
+            arg = _kwarg(call, target, p)
+            if arg is None or _strip_numeric_casts(unparse(inl.expr(arg))) != spin_param:
+                continue
+            # inside the helper, parameter p IS the spin magnitude (up to float()/Decimal(), which keep the value)
+            inner = _range_loop(tree, _as_first_param(target, p), depth + 1)
+            if inner is not None:
+                return inner
+        if any(isinstance(n, ast.While) for n in walk_function(target.node, nested=False)) and spin_param in {n.id for a in [*call.args, *[k.value for k in call.keywords]] for n in ast.walk(inl.expr(a)) if isinstance(n, ast.Name)}:
+            # the loop lives in a helper that receives something else than the spin magnitude itself
+            return fn, spin_param, call
+    return None
+
+
+def _as_first_param(fn: FuncInfo, p: str) -> FuncInfo:
+    """View of ``fn`` whose ``params[0]`` is ``p`` (the parameter that carries the spin magnitude)."""
+
+    class _View(FuncInfo):
+        @property
+        def params(self):  # type: ignore[override]
+            base = FuncInfo.params.fget(self)
+            return [p] + [x for x in base if x != p]
+
+    return _View(fn.qual, fn.node, fn.module, fn.cls, fn.outer)
+
+
+def check_spin_range(ctx: Check, tree: Tree) -> None:
+    top = tree.func(SPIN_RANGE)
+    found = _range_loop(tree, top)
+    if found is None:
+        ctx.info("R-RANGE", tree.loc(top.node), "create_spin_range has no while loop any more: range shape not decided (informational)")
+        return
+    fn, spin_param, loop = found
+    if isinstance(loop, ast.Call):
+        ctx.violation("R-RANGE", f"{SPIN_RANGE}::while-loop", tree.loc(loop), f"create_spin_range: the projections are generated by `{unparse(loop)[:70]}`",
+                      [f"the helper does not receive the spin magnitude `{spin_param}` itself (only float()/Decimal() conversions keep -s..s)"])
+        return
+    rd = RD(fn.node)
     problems = []
     test = loop.test
     if not (isinstance(test, ast.Compare) and len(test.ops) == 1 and isinstance(test.left, ast.Name)):
@@ -260,15 +369,15 @@ def check_spin_range(ctx: Check, tree: Tree) -> None:
     inl = Inliner(fn.node, rd)
     for d in init:
         txt = unparse(inl.expr(d.value)) if d.value is not None else "?"
-        core = txt.replace("Decimal(", "").replace("float(", "").replace(")", "").replace("(", "").replace(" ", "")
+        core = _strip_numeric_casts(txt)
         if core != f"-{spin_param}":
             problems.append(f"start value `{txt}` is not -{spin_param}")
     # step
     steps = [n for n in walk_function(loop) if isinstance(n, ast.AugAssign) and isinstance(n.target, ast.Name) and n.target.id == var]
     if len(steps) != 1 or not isinstance(steps[0].op, ast.Add) or not (isinstance(steps[0].value, ast.Constant) and steps[0].value.value == 1):
         problems.append(f"step `{unparse(steps[0]) if steps else '?'}` is not += 1")
-    # every iteration appends
-    appends = [n for n in walk_function(loop) if isinstance(n, ast.Call) and isinstance(n.func, ast.Attribute) and n.func.attr == "append"]
+    # every iteration contributes its projection: an unconditional append / yield
+    appends = [n for n in walk_function(loop) if (isinstance(n, ast.Call) and isinstance(n.func, ast.Attribute) and n.func.attr == "append") or isinstance(n, ast.Yield)]
     cond_append = [a for a in appends if any(isinstance(x, ast.If) for x in _ancestors_until(a, loop))]
     if not appends or len(cond_append) == len(appends):
         problems.append("no unconditional append of the projection in the loop body")
@@ -289,49 +398,115 @@ def _ancestors_until(node, stop):
         yield a
 
 
+DPD_FN = "ampform.helicity.align.dpd::_formulate_aligned_amplitude"
+DPD_GEN = "ampform.helicity.align.dpd::_DPDAlignmentWignerGenerator"
+
+
+def _symex(tree: Tree, qual: str, atoms: frozenset = frozenset()):
+    """(SymEx, result value, final state) of one function, computed once per tree."""
+    cache = tree.__dict__.setdefault("_c05_symex", {})
+    key = (qual, atoms)
+    if key not in cache:
+        fn = tree.func(qual)
+        sx = SymEx(tree, atoms=atoms)
+        try:
+            value, st = sx.run(fn)
+        except AnalysisError:
+            raise
+        except Exception as exc:  # noqa: BLE001 - an executor failure must not take the other rule groups down
+            raise AnalysisError(f"{qual}: symbolic execution failed ({exc!r})") from exc
+        cache[key] = (sx, value, st)
+    return cache[key]
+
+
+def _require_known(where: str, *values) -> None:
+    """Fail closed: a value the symbolic execution could not follow is neither accepted nor reported as wrong."""
+    for v in values:
+        for x in subterms(v) if isinstance(v, tuple) else ():
+            if x[0] in {"unknown", "carried-out"}:
+                raise AnalysisError(f"{where}: depends on a value the symbolic execution cannot follow: {show(x)[:80]}")
+
+
+def _unwrap(item):
+    """A list item without its ``foreach`` / ``when`` wrappers: (conditions, plain value)."""
+    pcs = ()
+    while isinstance(item, tuple) and item and item[0] in {"foreach", "when"}:
+        if item[0] == "when":
+            pcs += item[1]
+        item = item[2]
+    return pcs, item
+
+
+def _item_indices(v) -> set:
+    return {x[2] for x in subterms(v) if x[0] == "item"}
+
+
+def _is_generator_call(v) -> bool:
+    return isinstance(v, tuple) and v[0] == "call" and v[1][0] == "method" and v[1][1] == DPD_GEN + ".__call__"
+
+
+def _dpd_model(tree: Tree) -> dict:
+    """What _formulate_aligned_amplitude computes (sa/symex.py): the PoolSum call, its summand terms, its
+    index pairs.  Temporaries, helper functions, a loop over a table of rotations, a comprehension over the
+    topologies or generated index pairs all give the same values."""
+    fn = tree.func(DPD_FN)
+    sx, value, _ = _symex(tree, DPD_FN, frozenset({"_collect_outer_state_helicities", "get_outer_state_ids", "group_by_topology"}))
+    alts = alternatives(value)
+    if len(alts) != 1 or alts[0][1][0] != "tuple" or len(alts[0][1][1]) != 2:
+        raise AnalysisError(f"{fn.qual}: does not return one pair (amplitude, angle definitions): `{show(value)[:80]}`")
+    amp, defs = alts[0][1][1]
+    if not (amp[0] == "call" and func_name(amp) == "ampform.sympy::PoolSum" and amp[2] and not amp[3]):
+        raise AnalysisError(f"{fn.qual}: the amplitude is `{show(amp)[:60]}`, not a PoolSum(...)")
+    unknown = [x for x in subterms(amp) if x[0] in {"unknown", "carried", "carried-out"}]
+    if unknown:
+        raise AnalysisError(f"{fn.qual}: the amplitude depends on a value the symbolic execution cannot follow: {show(unknown[0])[:80]}")
+    return {"fn": fn, "sx": sx, "pool": amp, "summand": amp[2][0], "indices": amp[2][1:], "defs": defs}
+
+
+def _node_of(model: dict, value, default: ast.AST) -> ast.AST:
+    node = model["sx"].origin.get(value)
+    return node if node is not None and hasattr(node, "lineno") else default
+
+
 def check_dpd_wiring(ctx: Check, tree: Tree) -> None:
     """``wigner_generator(j_k, ..., k, spectator)``: spin, both helicity symbols and the
     literal state index of every call refer to the same outer state k."""
-    fn = tree.func("ampform.helicity.align.dpd::_formulate_aligned_amplitude")
-    rd = RD(fn.node)
+    model = _dpd_model(tree)
+    fn = model["fn"]
     calls = []
-    for node in walk_function(fn.node):
-        if isinstance(node, ast.Call) and isinstance(node.func, ast.Name):
-            defs = rd.reaching(node.func)
-            if any(d.value is not None and "_DPDAlignmentWignerGenerator" in unparse(d.value) for d in defs):
-                calls.append(node)
-    if len(calls) < 4:
-        raise AnalysisError(f"_formulate_aligned_amplitude: {len(calls)} wigner_generator calls (4 confirmed)")
+    for x in subterms(model["summand"]):
+        if _is_generator_call(x) and x not in calls:
+            calls.append(x)
+    if not calls:
+        raise AnalysisError("_formulate_aligned_amplitude: no wigner_generator call reaches the summand (4 confirmed)")
+    gen_cls = tree.cls(DPD_GEN)
+    call_params = gen_cls.methods["__call__"].params[1:]
     seen_states = set()
     for call in calls:
-        if len(call.args) < 5 or not isinstance(call.args[3], ast.Constant):
-            raise AnalysisError(f"wigner_generator call shape changed: {unparse(call)}")
-        k = call.args[3].value
+        if call[3] or len(call[2]) != len(call_params) or len(call_params) < 5:
+            raise AnalysisError(f"wigner_generator call shape changed: {show(call)[:100]}")
+        j, m, m_prime, state = call[2][:4]
+        if not is_const(state, int):
+            raise AnalysisError(f"wigner_generator call shape changed: the rotated state `{show(state)[:40]}` is not a literal")
+        k = state[1]
         seen_states.add(k)
-        idxs = []
-        for a in call.args[:3]:
-            if not isinstance(a, ast.Name):
-                idxs.append(None)
-                continue
-            ds = rd.reaching(a)
-            idxs.append(next(iter(ds)).index if len(ds) == 1 else None)
-        names = [unparse(a) for a in call.args[:3]]
-        ok = all(i == k for i in idxs) and len(set(names)) == 3
-        # spin must come from particle.spin, helicities from the two symbol families
-        jdef = next(iter(rd.reaching(call.args[0])), None) if isinstance(call.args[0], ast.Name) else None
-        ok = ok and jdef is not None and jdef.value is not None and "particle.spin" in unparse(jdef.value)
-        fams = set()
-        for a in call.args[1:3]:
-            if isinstance(a, ast.Name):
-                d = next(iter(rd.reaching(a)), None)
-                fams.add("outer" if d is not None and d.value is not None and "create_spin_projection_symbol" in unparse(d.value) else "dummy")
+        idxs = [sorted(_item_indices(a)) for a in (j, m, m_prime)]
+        ok = all(i == [k] for i in idxs) and len({j, m, m_prime}) == 3
+        # the id of outer state k: k-th element of get_outer_state_ids(reaction)
+        ids = [x for a in (j, m, m_prime) for x in subterms(a) if x[0] in {"item", "sub"} and x[1][0] == "call" and func_name(x[1]).endswith("get_outer_state_ids")]
+        ok = ok and bool(ids) and all(x[2] in {k, ("const", k)} for x in ids)
+        # spin must be particle.spin of that state, helicities from the two symbol families
+        ok = ok and any(x[0] == "attr" and x[2] == "spin" and x[1][0] == "attr" and x[1][2] == "particle" and x[1][1][0] == "sub" and x[1][1][2] in ids
+                        and x[1][1][1][0] == "attr" and x[1][1][1][2] == "states" for x in subterms(j))
+        fams = {"outer" if any(c[2][:1] and c[2][0] in ids for c in calls_of(a, "create_spin_projection_symbol")) else "dummy" for a in (m, m_prime)}
         ok = ok and fams == {"outer", "dummy"}
+        node = _node_of(model, call, fn.node)
         ctx.verdict(
             ok,
             "R-WIRING",
             f"{fn.qual}::wigner_generator[{k}]",
-            tree.loc(call),
-            f"DPD alignment: {unparse(call)} - spin, outer helicity, summed helicity and state index all refer to outer state {k}",
+            tree.loc(node),
+            f"DPD alignment: {unparse(node) if isinstance(node, ast.Call) else show(call)[:160]} - spin, outer helicity, summed helicity and state index all refer to outer state {k}",
             {"tuple_positions": idxs, "state": k},
         )
     ctx.verdict(
@@ -341,21 +516,29 @@ def check_dpd_wiring(ctx: Check, tree: Tree) -> None:
         tree.loc(fn.node),
         f"DPD alignment rotates each of the four outer states exactly once per topology: {sorted(seen_states)}",
     )
+    # the generator of this alignment is built for THIS reference subsystem
+    gens = {c[1][2] for c in calls}
+    init = tree.lookup_method(gen_cls, "__init__")
+    ok_ref = init is not None and all(g[0] == "call" and g[1] == ("global", DPD_GEN) and not g[3] and g[2][:1] == (("param", fn.params[1]),) for g in gens)
+    ctx.verdict(ok_ref, "R-WIRING", f"{fn.qual}::wigner_generator-reference", tree.loc(fn.node),
+                f"DPD alignment: the Wigner-d generator is constructed for the reference subsystem handed in (`{fn.params[1]}`)",
+                None if ok_ref else sorted(show(g)[:80] for g in gens))
     # pools of the outer PoolSum: index k <-> outer_helicities[k]
-    for node in walk_function(fn.node):
-        if isinstance(node, ast.Call) and tree.callee(node, fn) == "ampform.sympy::PoolSum":
-            for tup in node.args[1:]:
-                if isinstance(tup, ast.Tuple) and len(tup.elts) == 2 and isinstance(tup.elts[0], ast.Name) and isinstance(tup.elts[1], ast.Subscript):
-                    d = next(iter(rd.reaching(tup.elts[0])), None)
-                    sl = tup.elts[1].slice
-                    k = sl.value if isinstance(sl, ast.Constant) else None
-                    ctx.verdict(
-                        d is not None and d.index == k,
-                        "R-WIRING",
-                        f"{fn.qual}::pool[{unparse(tup.elts[0])}]",
-                        tree.loc(tup),
-                        f"DPD alignment: summed helicity {unparse(tup.elts[0])} (position {d.index if d else '?'}) ranges over outer_helicities[{k}]",
-                    )
+    for pair in model["indices"]:
+        if not (pair[0] == "tuple" and len(pair[1]) == 2):
+            raise AnalysisError(f"{fn.qual}: PoolSum index shape changed: {show(pair)[:80]}")
+        sym, pool = pair[1]
+        pos = sorted(_item_indices(sym))
+        k = pool[2][1] if pool[0] == "sub" and is_const(pool[2], int) else None
+        node = _node_of(model, sym, fn.node)
+        name = unparse(node) if isinstance(node, ast.Name) else show(sym)[:40]
+        ctx.verdict(
+            len(pos) == 1 and pos[0] == k,
+            "R-WIRING",
+            f"{fn.qual}::pool[{name}]",
+            tree.loc(_node_of(model, pair, node)),
+            f"DPD alignment: summed helicity {name} (position {pos[0] if len(pos) == 1 else '?'}) ranges over outer_helicities[{k}]",
+        )
 
 
 def _factors(node: ast.AST) -> list[ast.AST]:
@@ -369,84 +552,61 @@ def check_dpd_summand(ctx: Check, tree: Tree) -> None:
     is  base[primed helicities] * d(state 0) * d(state 1) * d(state 2) * d(state 3).
     A term that does not carry a summation index is added once per index combination (factor
     = product of the pool sizes); a term without its four rotations is not aligned."""
-    fn = tree.func("ampform.helicity.align.dpd::_formulate_aligned_amplitude")
-    rd = RD(fn.node)
-    pools = [n for n in walk_function(fn.node) if isinstance(n, ast.Call) and tree.callee(n, fn) == "ampform.sympy::PoolSum"]
-    if len(pools) != 1:
-        raise AnalysisError(f"{fn.qual}: expected one PoolSum, found {len(pools)}")
-    pool = pools[0]
+    model = _dpd_model(tree)
+    fn = model["fn"]
     bound = []
-    for tup in pool.args[1:]:
-        if not (isinstance(tup, ast.Tuple) and len(tup.elts) == 2 and isinstance(tup.elts[0], ast.Name)):
-            raise AnalysisError(f"{fn.qual}: PoolSum index shape changed: {unparse(tup)}")
-        bound.append(tup.elts[0].id)
-    summand = pool.args[0]
-    if not (isinstance(summand, ast.Call) and unparse(summand.func) in {"sp.Add", "Add", "sum"} and len(summand.args) == 1):
-        raise AnalysisError(f"{fn.qual}: PoolSum summand is `{unparse(summand)[:60]}`, not sp.Add(*terms)")
-    arg = summand.args[0].value if isinstance(summand.args[0], ast.Starred) else summand.args[0]
-    if not isinstance(arg, ast.Name):
-        raise AnalysisError(f"{fn.qual}: summand terms are not collected in a local list")
-    acc = arg.id
-    terms: list[ast.AST] = []
-    for d in rd.closure(rd.reaching(arg)):
-        if d.name != acc:
-            continue
-        node = d.node
-        if isinstance(node, ast.AnnAssign) or (isinstance(node, ast.Assign) and d.kind == "assign"):
-            val = node.value
-            if not isinstance(val, (ast.List, ast.Tuple)):
-                raise AnalysisError(f"{fn.qual}: `{acc}` initialised with `{unparse(val)[:50]}`")
-            terms += val.elts
-        elif isinstance(node, ast.AugAssign) and isinstance(node.op, ast.Add) and isinstance(node.value, (ast.List, ast.Tuple)):
-            terms += node.value.elts
-        elif isinstance(node, ast.Call) and isinstance(node.func, ast.Attribute) and node.func.attr == "append" and len(node.args) == 1:
-            terms.append(node.args[0])
-        elif isinstance(node, ast.Call) and isinstance(node.func, ast.Attribute) and node.func.attr == "extend" and len(node.args) == 1 and isinstance(node.args[0], (ast.List, ast.Tuple)):
-            terms += node.args[0].elts
-        elif isinstance(node, ast.Expr) and isinstance(node.value, ast.Call):
-            c = node.value
-            if isinstance(c.func, ast.Attribute) and c.func.attr == "append" and len(c.args) == 1:
-                terms.append(c.args[0])
-            elif isinstance(c.func, ast.Attribute) and c.func.attr == "extend" and len(c.args) == 1 and isinstance(c.args[0], (ast.List, ast.Tuple)):
-                terms += c.args[0].elts
-            else:
-                raise AnalysisError(f"{fn.qual}: `{acc}` modified by `{unparse(c)[:60]}`")
-        else:
-            raise AnalysisError(f"{fn.qual}: `{acc}` defined by an unknown shape `{unparse(node)[:60]}` ({d.kind})")
-    if not terms:
+    for pair in model["indices"]:
+        if not (pair[0] == "tuple" and len(pair[1]) == 2):
+            raise AnalysisError(f"{fn.qual}: PoolSum index shape changed: {show(pair)[:80]}")
+        bound.append(pair[1][0])
+    summand = model["summand"]
+    if not (summand[0] == "call" and func_name(summand).split(".")[-1] in {"Add", "sum"} and not summand[3]):
+        raise AnalysisError(f"{fn.qual}: PoolSum summand is `{show(summand)[:60]}`, not sp.Add(*terms)")
+    items = list(summand[2])
+    if func_name(summand).split(".")[-1] == "sum":
+        seq = model["sx"].as_items(items[0]) if len(items) == 1 else None
+        if seq is None:
+            raise AnalysisError(f"{fn.qual}: summand terms are not collected in a local list")
+        items = seq
+    if any(x[0] == "star" for x in items):
+        raise AnalysisError(f"{fn.qual}: the summand terms `{show(next(x for x in items if x[0] == 'star'))[:60]}` are not collected in a local list")
+    if not items:
         raise AnalysisError(f"{fn.qual}: no term reaches the PoolSum summand")
-    for n_t, term in enumerate(terms):
+
+    def name_of(v):
+        node = model["sx"].origin.get(v)
+        return unparse(node) if isinstance(node, ast.Name) else show(v)[:30]
+
+    bound_txt = [name_of(b) for b in bound]
+    for item in items:
+        _, term = _unwrap(item)
         problems = []
-        facs = _factors(term)
+        facs = list(term[1]) if term[0] == "mul" else [term]
         bases = []
         states = []
         for f in facs:
-            if isinstance(f, ast.Subscript) and isinstance(f.value, ast.Name) and any(
-                d.value is not None and "create_amplitude_base" in unparse(d.value) for d in rd.reaching(f.value)
-            ):
+            if f[0] == "sub" and calls_of(f[1], "create_amplitude_base") and f[1][0] == "call":
                 bases.append(f)
-            elif isinstance(f, ast.Call) and isinstance(f.func, ast.Name) and any(
-                d.value is not None and "_DPDAlignmentWignerGenerator" in unparse(d.value) for d in rd.reaching(f.func)
-            ):
-                if len(f.args) >= 4 and isinstance(f.args[3], ast.Constant):
-                    states.append(f.args[3].value)
-                    used = {a.id for a in f.args[1:3] if isinstance(a, ast.Name)}
-                    k = f.args[3].value
-                    if isinstance(k, int) and 0 <= k < len(bound) and bound[k] not in used:
-                        problems.append(f"rotation of state {k} does not carry the summation index {bound[k]}")
+            elif _is_generator_call(f):
+                if len(f[2]) >= 4 and is_const(f[2][3]):
+                    k = f[2][3][1]
+                    states.append(k)
+                    if isinstance(k, int) and 0 <= k < len(bound) and bound[k] not in f[2][1:3]:
+                        problems.append(f"rotation of state {k} does not carry the summation index {bound_txt[k]}")
             else:
-                problems.append(f"unexpected factor `{unparse(f)[:50]}`")
+                problems.append(f"unexpected factor `{show(f)[:50]}`")
         if len(bases) != 1:
             problems.append(f"{len(bases)} amplitude-base factors")
         else:
-            sl = bases[0].slice
-            idx = [e.id if isinstance(e, ast.Name) else None for e in sl.elts] if isinstance(sl, ast.Tuple) else [None]
+            idx = list(bases[0][2][1]) if bases[0][2][0] == "tuple" else [bases[0][2]]
             if idx != bound:
-                problems.append(f"the amplitude base is indexed by {idx}, not by the summation indices {bound}: the term is added once per combination of the indices it does not carry")
+                problems.append(f"the amplitude base is indexed by {[name_of(i) for i in idx]}, not by the summation indices {bound_txt}: the term is added once per combination of the indices it does not carry")
         if sorted(states, key=str) != [0, 1, 2, 3]:
             problems.append(f"rotations for outer states {states}, not exactly one each for 0, 1, 2, 3")
-        ctx.verdict(not problems, "R-SUMMAND", f"{fn.qual}::term::{canon_text(term)}", tree.loc(term),
-                    f"DPD summand term `{unparse(term)[:70]}...` = base[{', '.join(bound)}] * d_0 * d_1 * d_2 * d_3 (every summation index carried, every outer state rotated once)",
+        node = _node_of(model, term, fn.node)
+        text = canon_text(node) if node is not fn.node else re.sub(r"\s+", "", show(term))[:80]
+        ctx.verdict(not problems, "R-SUMMAND", f"{fn.qual}::term::{text}", tree.loc(node),
+                    f"DPD summand term `{unparse(node)[:70] if node is not fn.node else show(term)[:70]}...` = base[{', '.join(bound_txt)}] * d_0 * d_1 * d_2 * d_3 (every summation index carried, every outer state rotated once)",
                     problems or None)
 
 
@@ -478,12 +638,132 @@ def check_spin_range_not_cached_mutable(ctx: Check, tree: Tree) -> None:
         ctx.ok("R-CACHE", "src/ampform/helicity/align", f"the {len(sources)} memoised mutable results of helicity.align are never written")
 
 
+def _walk_summary(tree: Tree, fn: FuncInfo, call: ast.Call, owner: FuncInfo):
+    """One generic step of the walk along the decay chain, whatever its spelling (sa/symex.py):
+    ``init`` / ``end`` = value of every carried name before the first step / after one step (in terms of the
+    head symbols ``("carried", name, n)``), ``guard`` = condition under which a step is made, ``rotations`` =
+    what one step contributes.  A `while` loop carries its names through the loop head (relations such as
+    parent == get_parent_id(state) are proven by induction and substituted); a recursive local generator
+    carries its parameters and its `nonlocal` names from one call to the next."""
+    atoms = frozenset({ROTATION, "__multiply_pool_sums"})
+    sx, _, _ = _symex(tree, fn.qual, atoms)
+    if owner is fn:
+        loops = [a for a in ancestors(call) if isinstance(a, ast.While)]
+        info = sx.loops.get(id(loops[0])) if loops else None
+        if info is None:
+            return None
+        info.refine()
+        items = [info.value(x) for extra in info.extras.values() if extra for x in extra]
+        rotations = [(pcs, v) for pcs, v in map(_unwrap, items) if v[0] == "call" and func_name(v) == ROTATION]
+        guard = normal_value(info.value(info.test))
+        return {"init": dict(info.init), "end": {n: info.value(v) for n, v in info.end.items()}, "guard": (guard,), "rotations": rotations,
+                "head": info.head, "ordered": True, "what": "loop"}
+    # recursive local function
+    first = [e for e in sx.events if e[0] == "localcall" and e[2][1] == ("localfunc", owner.qual)]
+    if len(first) != 1 or first[0][2][3]:
+        return {"problem": f"the recursion does not start at `{fn.params[1]}`"}
+    nonlocals = sorted({name for n in walk_function(owner.node, nested=False) if isinstance(n, ast.Nonlocal) for name in n.names})
+    snapshot = first[0][3]
+    head = lambda name: ("carried", name, 0)  # noqa: E731
+    init = dict(zip(owner.params, first[0][2][2]))
+    init.update({n: snapshot.get(n) for n in nonlocals})
+    closure = dict(snapshot)
+    closure.update({n: head(n) for n in nonlocals})
+    sx2 = SymEx(tree, atoms=atoms)
+    try:
+        value, _ = sx2.run(owner, args={p: head(p) for p in owner.params}, closure=closure)
+    except AnalysisError:
+        raise
+    except Exception as exc:  # noqa: BLE001
+        raise AnalysisError(f"{owner.qual}: symbolic execution failed ({exc!r})") from exc
+    rec = [e for e in sx2.events if e[0] == "localcall" and e[2][1] == ("localfunc", owner.qual)]
+    if len(rec) != 1 or rec[0][2][3] or value[0] != "list":
+        return {"problem": "the recursion does not continue with get_parent_id(topology, state_id)"}
+    end = dict(zip(owner.params, rec[0][2][2]))
+    end.update({n: rec[0][3].get(n) for n in nonlocals})
+    items = [_unwrap(x) for x in value[1]]
+    rotations = [(pcs, v) for pcs, v in items if v[0] == "call" and func_name(v) == ROTATION]
+    order = [i for i, (_, v) in enumerate(items) if (v[0] == "call" and func_name(v) == ROTATION) or (v[0] == "star" and v[1] == rec[0][2])]
+    ordered = len(order) == 2 and items[order[0]][1][0] == "call" and items[order[1]][1][0] == "star"
+    guard = rec[0][1]
+    rotations = [(tuple(c for c in pcs if c not in guard), v) for pcs, v in rotations if all(g in pcs for g in guard)] if all(all(g in pcs for g in guard) for pcs, _ in rotations) else [((("?", True),), v) for _, v in rotations]
+    return {"init": init, "end": end, "guard": guard, "rotations": rotations, "head": head, "ordered": ordered, "what": "recursion"}
+
+
+def normal_value(test):
+    from ..symex import normal
+
+    return normal(test)
+
+
+def _judge_walk(tree: Tree, fn: FuncInfo, s: dict) -> list[str]:
+    """The obligations of R-CHAINORDER on one generic step (see check_rotation_chain_order)."""
+    if "problem" in s:
+        return [s["problem"]]
+    what = s["what"]
+    problems = []
+    head, init, end = s["head"], s["init"], s["end"]
+    if len(s["rotations"]) != 1 or s["rotations"][0][0] or not s["ordered"]:
+        return [f"one step of the {what} does not contribute exactly one helicity rotation (unconditionally, before the steps further up)"]
+    rot = s["rotations"][0][1]
+    _require_known(fn.qual, rot, tuple(v for v in init.values() if v is not None), tuple(v for v in end.values() if v is not None), tuple(t for t, _ in s["guard"]))
+    params = tree.func(ROTATION).params
+    if rot[3] or len(rot[2]) != len(params):
+        raise AnalysisError(f"{fn.qual}: the call of formulate_helicity_rotation cannot be bound to its parameters: {show(rot)[:80]}")
+    arg = dict(zip(params, rot[2]))
+
+    def greek(v):
+        hits = {x for x in subterms(v) if x[0] == "sub" and x[1][0] == "global" and x[1][1].endswith("__GREEK_INDEX_NAMES")}
+        return next(iter(hits)) if len(hits) == 1 else None
+
+    g_mp, g_sp = greek(arg.get("m_prime", NONE)), greek(arg.get("spin_projection", NONE))
+    counter = g_mp[2][1] if g_mp is not None and g_mp[2][0] == "carried" and g_mp[2] == head(g_mp[2][1]) else None
+    hole = ("sym", "index-name")
+    if (counter is None or g_sp is None or g_sp[2] != ("binop", "+", head(counter), ("const", 1))
+            or subst(arg["m_prime"], {g_mp: hole}) != subst(arg["spin_projection"], {g_sp: hole})):
+        problems.append("m_prime / spin_projection do not use index k / k+1 of the counter")
+    if counter is None:
+        names = sorted({x[1] for g in (g_mp, g_sp) if g is not None for x in subterms(g[2]) if x[0] == "carried"})
+        problems.append(f"index counter not identified ({names})")
+    else:
+        # the counter: starts at 0 (index 0 is the helicity symbol the Wigner rotation / the amplitude connects to)
+        # and advances by exactly one per rotation
+        if init.get(counter) != ("const", 0):
+            problems.append(f"the index counter `{counter}` does not start at 0")
+        if end.get(counter) != ("binop", "+", head(counter), ("const", 1)):
+            problems.append(f"the index counter `{counter}` is not advanced by exactly 1 per rotation")
+    # the walk: from the rotated state upwards, a step is made iff the state has a parent, and continues with that parent
+    guard = s["guard"]
+    parent = state = None
+    if len(guard) == 1 and guard[0][1] is False and guard[0][0][0] == "cmp" and guard[0][0][1] == "is" and guard[0][0][3] == NONE:
+        g = guard[0][0][2]
+        if g[0] == "call" and func_name(g).endswith("get_parent_id") and len(g[2]) == 2 and g[2][1][0] == "carried" and g[2][1] == head(g[2][1][1]):
+            parent, state = g, g[2][1][1]
+    if parent is None:
+        problems.append(f"the {what} does not stop exactly when the state has no parent (`parent_id is None`)")
+    else:
+        if end.get(state) != parent:
+            problems.append(f"the {what} does not continue with get_parent_id(topology, state_id)")
+        if init.get(state) != ("param", fn.params[1]):
+            problems.append(f"the {what} does not start at `{fn.params[1]}`")
+    # Euler angles of a helicity rotation: (phi, theta, 0) of the helicity state of that level
+    alpha, beta, gamma = arg.get("alpha", NONE), arg.get("beta", NONE), arg.get("gamma", NONE)
+    conv_ok = (alpha[0] == "item" and beta[0] == "item" and alpha[1] == beta[1] and (alpha[2], beta[2]) == (0, 1)
+               and alpha[1][0] == "call" and func_name(alpha[1]).endswith("get_helicity_angle_symbols") and gamma == ("const", 0))
+    if not conv_ok:
+        problems.append("the helicity rotation does not use (alpha, beta, gamma) = (phi, theta, 0) of get_helicity_angle_symbols")
+    return problems
+
+
 def check_rotation_chain_order(ctx: Check, tree: Tree) -> None:
     """R-CHAINORDER: the helicity rotations of the axis-angle chain do not commute.  The k-th pair of
     summation indices (m' = index k, projection = index k+1, k = 0 at the rotated particle's own
     helicity) carries the angles of the k-th state on the way UP from the rotated state to the
-    initial state.  Accepted idioms: the recursion rotated_state -> get_parent_id(...) with a counter,
-    or `for k, state in enumerate(list_decay_chain_ids(topology, rotated_state)[...])`.  Walking
+    initial state.  Accepted: any walk whose generic step (sa/symex.py) starts at the rotated state with
+    counter 0, is made iff get_parent_id(topology, state) is not None, contributes one rotation with the
+    index pair (counter, counter + 1), and continues with that parent and counter + 1 - spelled as a
+    recursive local generator or as a `while` loop - or
+    `for k, state in enumerate(list_decay_chain_ids(topology, rotated_state)[...])`.  Walking
     the chain downwards (reversed(...)) attaches the angles the other way round: single-topology
     intensities do not notice (unitarity), interfering topologies are no longer rotation invariant."""
     fn = tree.func("ampform.helicity.align.axisangle::formulate_helicity_rotation_chain")
@@ -493,69 +773,11 @@ def check_rotation_chain_order(ctx: Check, tree: Tree) -> None:
     call = rot_calls[0]
     owner = tree.func_of(call) or fn
     key = f"{fn.qual}::chain-direction"
-    if owner is not fn:
-        # recursive generator idiom
-        rec = [c for c in walk_function(owner.node) if isinstance(c, ast.Call) and isinstance(c.func, ast.Name) and c.func.id == owner.name]
-        first = [c for c in walk_function(fn.node, nested=False) if isinstance(c, ast.Call) and isinstance(c.func, ast.Name) and c.func.id == owner.name]
-        rd = RD(fn.node)
-        up = False
-        for c in rec:
-            if c.args and isinstance(c.args[0], ast.Name):
-                from ..prov import _rd_for
-
-                ord_ = _rd_for(owner, {})
-                defs = ord_.reaching(c.args[0])
-                up = bool(defs) and all(d.value is not None and "get_parent_id(" in unparse(d.value) for d in defs)
-        starts = bool(first) and all(c.args and unparse(c.args[0]) == fn.params[1] for c in first)
-        problems = []
-        if not up:
-            problems.append("the recursion does not continue with get_parent_id(topology, state_id)")
-        if not starts:
-            problems.append(f"the recursion does not start at `{fn.params[1]}`")
-        kw = {k.arg: unparse(k.value) for k in call.keywords}
-        mp, sp_ = kw.get("m_prime", ""), kw.get("spin_projection", "")
-        ord_ = _rd_for(owner, {})
-        def root_index(expr_txt, kwname):
-            node = next((k.value for k in call.keywords if k.arg == kwname), None)
-            if node is None:
-                return None
-            txt = unparse(node) + " ".join(unparse(d.value) for d in ord_.closure(ord_.uses(node)) if isinstance(d.value, ast.AST))
-            return "next" if "+ 1]" in txt.replace("+1]", "+ 1]") else "current"
-        if root_index(mp, "m_prime") != "current" or root_index(sp_, "spin_projection") != "next":
-            problems.append("m_prime / spin_projection do not use index k / k+1 of the counter")
-        # the counter: starts at 0 (index 0 is the helicity symbol the Wigner rotation / the amplitude connects to)
-        # and advances by exactly one per rotation; the recursion ends at the initial state (no parent)
-        frd = RD(fn.node)
-        counters = {n.value.id for k_ in call.keywords for n in ast.walk(k_.value) if False}
-        cnames = set()
-        for kw_ in call.keywords:
-            if kw_.arg in {"m_prime", "spin_projection"}:
-                for d in ord_.closure(ord_.uses(kw_.value)):
-                    if isinstance(d.value, ast.Subscript) and "__GREEK_INDEX_NAMES" in unparse(d.value.value):
-                        cnames |= {n.id for n in ast.walk(d.value.slice) if isinstance(n, ast.Name)}
-        if len(cnames) != 1:
-            problems.append(f"index counter not identified ({sorted(cnames)})")
-        else:
-            cn = next(iter(cnames))
-            inits = [n for n in walk_function(fn.node, nested=False) if isinstance(n, ast.Assign) and isinstance(n.targets[0], ast.Name) and n.targets[0].id == cn]
-            if not (len(inits) == 1 and isinstance(inits[0].value, ast.Constant) and inits[0].value.value == 0):
-                problems.append(f"the index counter `{cn}` does not start at 0")
-            incs = [n for n in walk_function(owner.node) if isinstance(n, ast.AugAssign) and isinstance(n.target, ast.Name) and n.target.id == cn]
-            if not (len(incs) == 1 and isinstance(incs[0].op, ast.Add) and isinstance(incs[0].value, ast.Constant) and incs[0].value.value == 1
-                    and not any(isinstance(a, (ast.If, ast.For, ast.While)) for a in ancestors(incs[0]) if a is not owner.node and any(a is x for x in ast.walk(owner.node)))):
-                problems.append(f"the index counter `{cn}` is not advanced by exactly 1 per rotation")
-        # Euler angles of a helicity rotation: (phi, theta, 0) of the helicity state of that level
-        angle_syms = None
-        for d in ord_.defs:
-            if isinstance(d.value, ast.Call) and unparse(d.value.func).endswith("get_helicity_angle_symbols") and d.index is not None:
-                angle_syms = angle_syms or {}
-                angle_syms[d.name] = d.index
-        kwv = {k.arg: k.value for k in call.keywords}
-        conv_ok = (angle_syms is not None and isinstance(kwv.get("alpha"), ast.Name) and angle_syms.get(kwv["alpha"].id) == 0
-                   and isinstance(kwv.get("beta"), ast.Name) and angle_syms.get(kwv["beta"].id) == 1
-                   and isinstance(kwv.get("gamma"), ast.Constant) and kwv["gamma"].value == 0)
-        if not conv_ok:
-            problems.append("the helicity rotation does not use (alpha, beta, gamma) = (phi, theta, 0) of get_helicity_angle_symbols")
+    if owner is not fn or any(isinstance(a, ast.While) for a in ancestors(call)):
+        summary = _walk_summary(tree, fn, call, owner)
+        if summary is None:
+            raise AnalysisError(f"{fn.qual}: rotation neither in a recursive helper nor in a loop")
+        problems = _judge_walk(tree, fn, summary)
         # a chain of a single rotation has no summation left: its index is identified with the helicity symbol
         tails = [n for n in walk_function(fn.node, nested=False) if isinstance(n, ast.If) and any(isinstance(b, ast.Return) and b.value is not None and ".subs(" in unparse(b.value) for b in n.body)]
         if tails:
@@ -564,10 +786,6 @@ def check_rotation_chain_order(ctx: Check, tree: Tree) -> None:
                        and unparse(t.left).replace(" ", "").startswith("len(") and unparse(t.left).endswith(".indices)"))
             if not ok_tail:
                 problems.append(f"the single-rotation special case is taken under `{unparse(t)}`, not iff exactly one summation index exists")
-        stops = [n for n in walk_function(owner.node) if isinstance(n, ast.If) and any(isinstance(b, ast.Return) for b in n.body)]
-        if not any(isinstance(n.test, ast.Compare) and len(n.test.ops) == 1 and isinstance(n.test.ops[0], ast.Is) and isinstance(n.test.comparators[0], ast.Constant)
-                   and n.test.comparators[0].value is None and any(d.value is not None and "get_parent_id(" in unparse(d.value) for d in ord_.reaching(n.test.left) ) for n in stops if isinstance(n.test, ast.Compare) and isinstance(n.test.left, ast.Name)):
-            problems.append("the recursion does not stop exactly when the state has no parent (`parent_id is None`)")
         ctx.verdict(not problems, "R-CHAINORDER", key, tree.loc(call), "axis-angle chain: recursion from the rotated state upwards (get_parent_id) until the initial state, index pair k (k = 0, 1, ...) carries the angles of the k-th state on the way up", problems or None)
         return
     # loop idiom
@@ -745,6 +963,25 @@ def check_axisangle_amplitude(ctx: Check, tree: Tree) -> None:
                 "axis-angle: amplitude = sum over all topology groups of PoolSum(alignment.expression * A^topology[helicities], *alignment.indices)", problems or None)
 
 
+def _call_arg(tree: Tree, call, qual: str, pname: str):
+    """Value bound to parameter ``pname`` in a symbolic call of ``qual`` (None if it is not passed)."""
+    target = tree.funcs.get(qual)
+    if target is None:
+        return None
+    params = target.params
+    if not call[3] and len(call[2]) == len(params) and pname in params:
+        v = call[2][params.index(pname)]
+        return v
+    for k, v in call[3]:
+        if k == pname:
+            return v
+    if pname in params:
+        i = params.index(pname)
+        if i < len(call[2]) and not any(a[0] == "star" for a in call[2][: i + 1]):
+            return call[2][i]
+    return None
+
+
 def check_axisangle_structure(ctx: Check, tree: Tree) -> None:
     """Further structural obligations of the axis-angle alignment (all in helicity/align/axisangle.py):
     (a) formulate_rotation_chain returns the helicity rotations alone iff there is exactly one
@@ -756,75 +993,66 @@ def check_axisangle_structure(ctx: Check, tree: Tree) -> None:
     (d) get_opposite_helicity_sign is -1 iff the state is not the initial state and is the
         opposite-helicity state, +1 otherwise."""
     mod = "ampform.helicity.align.axisangle"
-    # (a)
+    # (a) judged on what formulate_rotation_chain computes (sa/symex.py): temporaries, helper functions that build
+    #     the index symbol, keyword / positional arguments do not matter
     fn = tree.func(f"{mod}::formulate_rotation_chain")
-    rd = RD(fn.node)
+    chain_q, wigner_q = f"{mod}::formulate_helicity_rotation_chain", f"{mod}::formulate_wigner_rotation"
+    sx, value, _ = _symex(tree, fn.qual, frozenset({chain_q, wigner_q, "__multiply_pool_sums"}))
     problems = []
-    rets = [r for r, _ in rd.returns if r.value is not None]
-    early = [r for r in rets if isinstance(r.value, ast.Name) and any(d.value is not None and "formulate_helicity_rotation_chain(" in unparse(d.value) for d in rd.reaching(r.value))]
+    _require_known(fn.qual, value)
+    alts = cases(value)
+    is_chain = lambda v: v[0] == "call" and func_name(v) == chain_q  # noqa: E731
+    early = [(pc, v) for pc, v in alts if is_chain(v)]
+    hr = early[0][1] if early else next((x for x in subterms(value) if is_chain(x)), None)
     if len(early) != 1:
         problems.append("no early return of the bare helicity rotations")
     else:
-        guards = [a for a in ancestors(early[0]) if isinstance(a, ast.If)]
-        name = early[0].value.id
-        t = guards[0].test if len(guards) == 1 else None
-        ok_t = (isinstance(t, ast.Compare) and len(t.ops) == 1 and isinstance(t.ops[0], ast.Eq) and isinstance(t.comparators[0], ast.Constant) and t.comparators[0].value == 1
-                and unparse(t.left).replace(" ", "") == f"len({name}.indices)")
-        if not ok_t:
-            problems.append(f"the bare helicity rotations are returned under `{unparse(t) if t is not None else '?'}`, not iff there is exactly one rotation")
-    final = [r for r in rets if r not in early]
-    if len(final) != 1 or not (isinstance(final[0].value, ast.Call) and "__multiply_pool_sums" in unparse(final[0].value.func)):
+        pc = early[0][0]
+        want = ("cmp", "==", ("call", ("builtin", "len"), (("attr", hr, "indices"),), ()), ("const", 1))
+        if pc != ((want, True),):
+            problems.append(f"the bare helicity rotations are returned under `{show_pc(pc)[:80] if pc else '?'}`, not iff there is exactly one rotation")
+    final = [(pc, v) for pc, v in alts if not is_chain(v)]
+    wr_calls = [x for x in subterms(value) if x[0] == "call" and func_name(x) == wigner_q]
+    if len(final) != 1 or not (final[0][1][0] == "call" and func_name(final[0][1]).endswith("__multiply_pool_sums")):
         problems.append("the general case does not return the product of helicity rotations and Wigner rotation")
     else:
-        txt = " ".join(unparse(d.value) for d in rd.closure(rd.uses(final[0].value)) if isinstance(d.value, ast.AST)) + unparse(final[0].value)
-        if "formulate_wigner_rotation(" not in txt or "formulate_helicity_rotation_chain(" not in txt:
+        prod = final[0][1]
+        if not (any(is_chain(x) for x in subterms(prod)) and any(x in wr_calls for x in subterms(prod))):
             problems.append("the product does not contain both the helicity rotations and the Wigner rotation")
-        wr = [c for c in walk_function(fn.node) if isinstance(c, ast.Call) and unparse(c.func).endswith("formulate_wigner_rotation")]
-        if len(wr) == 1:
-            mp = next((k.value for k in wr[0].keywords if k.arg == "m_prime"), None)
-            mtxt = " ".join(unparse(d.value) for d in rd.closure(rd.uses(mp)) if isinstance(d.value, ast.AST)) if mp is not None else ""
-            if early and f"__GREEK_INDEX_NAMES[len({early[0].value.id}.indices)]" not in mtxt.replace(" ", "").replace("len(", "len(") and "__GREEK_INDEX_NAMES[len(" not in mtxt:
+        if len(wr_calls) == 1 and hr is not None:
+            mp = _call_arg(tree, wr_calls[0], wigner_q, "m_prime")
+            next_free = ("call", ("builtin", "len"), (("attr", hr, "indices"),), ())
+            names = [x for x in subterms(mp)] if mp is not None else []
+            if early and not any(x[0] == "sub" and x[1][0] == "global" and x[1][1].endswith("__GREEK_INDEX_NAMES") and x[2] == next_free for x in names):
                 problems.append("the Wigner rotation's summation index is not the next free index name")
     # both kinds of rotation act on the SAME outer index: the spin-projection symbol of the rotated state.
     # A value that can be None makes formulate_wigner_rotation fall back to the concrete projection of
     # one transition: the D-matrix row is then fixed instead of summed, the rotation no longer unitary.
-    def bound_symbol(call: ast.Call, callee_q: str, pname: str):
-        target = tree.funcs.get(callee_q)
-        if target is None:
-            return None
-        for k in call.keywords:
-            if k.arg == pname:
-                return k.value
-        if pname in target.params:
-            i = target.params.index(pname)
-            if i < len(call.args) and not any(isinstance(a, ast.Starred) for a in call.args[: i + 1]):
-                return call.args[i]
-        return None
-
-    def never_none_symbol(e, depth=0) -> bool:
-        if e is None or depth > 4:
+    def never_none_symbol(v, depth=0) -> bool:
+        if v is None or depth > 6:
             return False
-        if isinstance(e, ast.Call) and unparse(e.func).endswith("create_spin_projection_symbol") and len(e.args) == 1 and unparse(e.args[0]) == fn.params[1]:
+        if v[0] == "call" and func_name(v).endswith("create_spin_projection_symbol") and not v[3] and v[2] == (("param", fn.params[1]),):
             return True
-        if isinstance(e, ast.BoolOp) and isinstance(e.op, ast.Or):
-            return never_none_symbol(e.values[-1], depth + 1)
-        if isinstance(e, ast.IfExp):
-            return never_none_symbol(e.body, depth + 1) and never_none_symbol(e.orelse, depth + 1)
-        if isinstance(e, ast.Name):
-            defs = list(rd.reaching(e))
-            return bool(defs) and all(d.value is not None and d.index is None and never_none_symbol(d.value, depth + 1) for d in defs)
+        if v[0] == "or":
+            return never_none_symbol(v[1][-1], depth + 1)
+        if v[0] == "phi":
+            return all(never_none_symbol(x, depth + 1) for _, x in v[1])
         return False
 
     bound = []
-    for suffix, q in (("formulate_helicity_rotation_chain", f"{mod}::formulate_helicity_rotation_chain"), ("formulate_wigner_rotation", f"{mod}::formulate_wigner_rotation")):
-        for c in [c for c in walk_function(fn.node) if isinstance(c, ast.Call) and unparse(c.func).endswith(suffix)]:
-            e = bound_symbol(c, q, "helicity_symbol")
+    for suffix, q in (("formulate_helicity_rotation_chain", chain_q), ("formulate_wigner_rotation", wigner_q)):
+        seen = []
+        for c in [x for x in subterms(value) if x[0] == "call" and func_name(x) == q]:
+            if c in seen:
+                continue
+            seen.append(c)
+            e = _call_arg(tree, c, q, "helicity_symbol")
             bound.append((suffix, e))
             if e is None:
                 problems.append(f"{suffix}(...) is called without the outer helicity symbol (falls back to the concrete projection of one transition)")
             elif not never_none_symbol(e):
-                problems.append(f"{suffix}(... helicity_symbol=`{unparse(e)[:50]}`) is not always create_spin_projection_symbol({fn.params[1]}): it may be None / another symbol")
-    if len(bound) < 2:
+                problems.append(f"{suffix}(... helicity_symbol=`{show(e)[:50]}`) is not always create_spin_projection_symbol({fn.params[1]}): it may be None / another symbol")
+    if len({s_ for s_, _ in bound}) < 2:
         raise AnalysisError(f"{fn.qual}: expected calls of formulate_helicity_rotation_chain and formulate_wigner_rotation")
     ctx.verdict(not problems, "R-WIRING", f"{fn.qual}::wigner-iff-nested", tree.loc(fn.node),
                 "formulate_rotation_chain: one helicity rotation -> returned alone; more -> times the Wigner rotation with the next free summation index", problems or None)
@@ -907,45 +1135,45 @@ def check_axisangle_structure(ctx: Check, tree: Tree) -> None:
             if any(isinstance(a, ast.If) for a in ancestors(st.node) if any(a is x for x in ast.walk(fn.node)) and a is not fn.node):
                 problems.append("the accumulation is conditional")
     ctx.verdict(not problems, "R-WIRING", f"{fn.qual}::all-final-states", tree.loc(fn.node), "formulate_axis_angle_alignment = PoolSum(1) x rotation chain of every final state", problems or None)
-    # (f) the Wigner rotation acts on the helicity symbol that is handed in and uses (alpha, beta, gamma) of that state
+    # (f) the Wigner rotation acts on the helicity symbol that is handed in and uses (alpha, beta, gamma) of that state;
+    #     judged on the value of every argument on every path (sa/symex.py): an if/else assignment, a conditional
+    #     expression in the call and a temporary are the same thing
     fn = tree.func(f"{mod}::formulate_wigner_rotation")
-    rd = RD(fn.node)
+    rot_q = f"{mod}::formulate_helicity_rotation"
+    sx, value, _ = _symex(tree, fn.qual, frozenset({rot_q}))
     problems = []
-    calls = [c for c in walk_function(fn.node) if isinstance(c, ast.Call) and unparse(c.func).endswith("formulate_helicity_rotation")]
+    calls = []
+    for x in subterms(value):
+        if x[0] == "call" and func_name(x) == rot_q and x not in calls:
+            calls.append(x)
     if len(calls) != 1:
         raise AnalysisError(f"{fn.qual}: expected one call of formulate_helicity_rotation")
-    kw = {k.arg: k.value for k in calls[0].keywords}
-    spd = list(rd.reaching(kw["spin_projection"])) if isinstance(kw.get("spin_projection"), ast.Name) else []
-    ok_sp = False
-    if len(spd) == 2:
-        by = {}
-        for d in spd:
-            g = [a for a in ancestors(d.node) if isinstance(a, ast.If)]
-            if len(g) == 1:
-                in_body = any(d.node is n for b in g[0].body for n in ast.walk(b))
-                t = g[0].test
-                negated = False
-                while isinstance(t, ast.UnaryOp) and isinstance(t.op, ast.Not):
-                    t, negated = t.operand, not negated
-                is_none = isinstance(t, ast.Compare) and isinstance(t.ops[0], ast.Is) and unparse(t.left) == "helicity_symbol" and unparse(t.comparators[0]) == "None"
-                is_not_none = isinstance(t, ast.Compare) and isinstance(t.ops[0], ast.IsNot) and unparse(t.left) == "helicity_symbol" and unparse(t.comparators[0]) == "None"
-                if negated:
-                    is_none, is_not_none = is_not_none, is_none
-                symbol_given = (is_none and not in_body) or (is_not_none and in_body)
-                by["given" if symbol_given else "none"] = unparse(d.value)
-        ok_sp = by.get("given") == "helicity_symbol" and by.get("none", "").endswith(".spin_projection")
-    elif len(spd) == 1:
-        ok_sp = unparse(spd[0].value) == "helicity_symbol"
+    _require_known(fn.qual, calls[0])
+    sym = ("param", "helicity_symbol")
+    none_given = ("cmp", "is", sym, NONE)
+    ok_sp = True
+    seen_cases = cases(calls[0])
+    for pc, c in seen_cases:
+        v = _call_arg(tree, c, rot_q, "spin_projection")
+        if v is None:
+            ok_sp = False
+        elif (none_given, True) in pc:
+            ok_sp = ok_sp and v[0] == "attr" and v[2] == "spin_projection"
+        else:
+            ok_sp = ok_sp and v == sym
     if not ok_sp:
         problems.append("spin_projection is not the helicity symbol that was handed in (state.spin_projection only when none is given)")
+    first = seen_cases[0][1]
     for ang in ("alpha", "beta", "gamma"):
-        v = kw.get(ang)
-        txt = unparse(v) if v is not None else ""
-        if not (txt.startswith("sp.Symbol(f'" + ang + "{") and "real=True" in txt):
-            problems.append(f"{ang} is `{txt[:40]}`, not Symbol('{ang}' + helicity suffix, real=True)")
-    if unparse(kw.get("m_prime", ast.Constant(None))) != "m_prime":
+        v = _call_arg(tree, first, rot_q, ang)
+        ok_a = (v is not None and v[0] == "call" and func_name(v) == "sympy.Symbol" and len(v[2]) == 1 and v[2][0][0] == "fstr" and v[2][0][1][0] == ("const", ang)
+                and len(v[2][0][1]) == 2 and ("real", ("const", True)) in v[3])
+        if not ok_a:
+            problems.append(f"{ang} is `{show(v)[:40] if v is not None else ''}`, not Symbol('{ang}' + helicity suffix, real=True)")
+    if _call_arg(tree, first, rot_q, "m_prime") != ("param", "m_prime"):
         problems.append("m_prime is not passed on")
-    if "mass == 0" not in " ".join(unparse(d.value) for d in rd.closure(rd.uses(kw["no_zero_spin"])) if isinstance(d.value, ast.AST)) if "no_zero_spin" in kw else True:
+    nz = _call_arg(tree, first, rot_q, "no_zero_spin")
+    if nz is None or not any(x[0] == "cmp" and x[1] == "==" and x[2][0] == "attr" and x[2][2] == "mass" and x[3] in {("const", 0), ("const", 0.0)} for x in subterms(nz)):
         problems.append("no_zero_spin is not `mass == 0` of the rotated state")
     ctx.verdict(not problems, "R-WIRING", f"{fn.qual}::arguments", tree.loc(fn.node), "formulate_wigner_rotation: D^s_{m', m}(alpha, beta, gamma) with m = the helicity symbol handed in, the state's own (alpha, beta, gamma) symbols and m'", problems or None)
     # (g) the Euler rotation: D(j = s, m = projection, mp = m', alpha, beta, gamma) summed over m' in the spin range
@@ -987,57 +1215,81 @@ def check_dpd_generator(ctx: Check, tree: Tree) -> None:
     Wigner.d(j, m, m', zeta) with zeta = formulate_zeta_angle(rotated state, aligned subsystem,
     THIS alignment's reference subsystem), and registers the definition of every zeta it uses;
     the alignment hands out component 0 as amplitude and component 1 as symbol definitions; the
-    relabelling shifts every edge id by one (-1..3 -> 0..4)."""
+    relabelling shifts every edge id by one (-1..3 -> 0..4).
+    Judged on what __call__ computes (sa/symex.py): methods extracted from it are inlined, keyword
+    and positional arguments are bound to the parameters of the callee."""
     mod = "ampform.helicity.align.dpd"
     cls = tree.cls(f"{mod}::_DPDAlignmentWignerGenerator")
     call = cls.methods.get("__call__")
     init = cls.methods.get("__init__")
     if call is None or init is None:
         raise AnalysisError("vanished anchor: _DPDAlignmentWignerGenerator.__call__/__init__")
-    rd = RD(call.node)
+    zeta_q = "ampform.kinematics.angles::formulate_zeta_angle"
+    sx, value, _ = _symex(tree, call.qual, frozenset({zeta_q}))
+    if sx.imprecise:
+        raise AnalysisError(f"{call.qual}: symbolic execution incomplete: {sx.imprecise[0]}")
+    _require_known(call.qual, value, tuple(e[2:4] for e in sx.events if e[0] == "store"))
     problems = []
-    j = call.params[1]
-    short = [n for n in walk_function(call.node) if isinstance(n, ast.If) and any(isinstance(b, ast.Return) for b in n.body)]
-    for n in short:
-        t = n.test
-        ok_t = isinstance(t, ast.Compare) and len(t.ops) == 1 and isinstance(t.ops[0], ast.Eq) and unparse(t.left) == j and unparse(t.comparators[0]) == "0"
-        r = next(b for b in n.body if isinstance(b, ast.Return))
-        ok_v = unparse(r.value) in {"sp.Rational(1)", "1", "sp.S.One", "sp.Integer(1)"}
+    me = ("param", call.params[0])
+    j = ("param", call.params[1])
+    spin_zero = ("cmp", "==", j, ("const", 0))
+    ones = {("const", 1), ("call", ("global", "sympy.Rational"), (("const", 1),), ()), ("call", ("global", "sympy.Integer"), (("const", 1),), ()), ("global", "sympy.S.One")}
+    general = []
+    for pc, val in alternatives(value):
+        if val[0] == "call" and func_name(val).endswith(".d"):
+            general.append((pc, val))
+            continue
+        ok_t = pc == ((spin_zero, True),)
+        ok_v = val in ones
         if not (ok_t and ok_v):
-            problems.append(f"shortcut `if {unparse(t)}: return {unparse(r.value)}` is not `if {j} == 0: return 1`")
-    finals = [r for r in walk_function(call.node, nested=False) if isinstance(r, ast.Return) and not any(isinstance(a, ast.If) for a in ancestors(r))]
-    if len(finals) != 1 or not (isinstance(finals[0].value, ast.Call) and unparse(finals[0].value.func).endswith(".d")):
+            problems.append(f"shortcut `if {show_pc(pc)}: return {show(val)[:40]}` is not `if {j[1]} == 0: return 1`")
+    if len(general) != 1 or any(c not in {(spin_zero, False)} for c in general[0][0]):
         problems.append("the general case does not return Wigner.d(...)")
     else:
-        dargs = [unparse(a) for a in finals[0].value.args]
-        if dargs[:3] != call.params[1:4]:
-            problems.append(f"Wigner.d arguments {dargs[:3]} are not (j, m, m_prime) as received")
-        zeta = finals[0].value.args[3] if len(finals[0].value.args) > 3 else None
-        zdefs = list(rd.reaching(zeta)) if isinstance(zeta, ast.Name) else []
-        zcall = zdefs[0].value if len(zdefs) == 1 and isinstance(zdefs[0].value, ast.Call) else None
-        if zcall is None or not unparse(zcall.func).endswith("formulate_zeta_angle") or zdefs[0].index != 0:
+        gpc, d = general[0]
+        dargs = list(d[2])
+        if d[3] or dargs[:3] != [("param", p) for p in call.params[1:4]]:
+            problems.append(f"Wigner.d arguments {[show(a)[:30] for a in dargs[:3]]} are not (j, m, m_prime) as received")
+        zeta = dargs[3] if len(dargs) > 3 else None
+        zcall = zeta[1] if zeta is not None and zeta[0] == "item" and zeta[2] == 0 else None
+        if zcall is None or not (zcall[0] == "call" and func_name(zcall) == zeta_q):
             problems.append("zeta is not the symbol returned by formulate_zeta_angle")
         else:
-            zargs = [unparse(a) for a in zcall.args]
-            if zargs != [call.params[4], call.params[5], "self.reference_subsystem"]:
-                problems.append(f"formulate_zeta_angle{tuple(zargs)} is not (rotated_state, aligned_subsystem, self.reference_subsystem)")
-            stores = [n for n in walk_function(call.node) if isinstance(n, ast.Assign) and isinstance(n.targets[0], ast.Subscript) and unparse(n.targets[0].value) == "self.angle_definitions"]
-            ok_store = len(stores) == 1 and isinstance(stores[0].value, ast.Name) and any(d.value is zcall and d.index == 1 for d in rd.reaching(stores[0].value)) and unparse(stores[0].targets[0].slice) == unparse(zeta) \
-                and not any(isinstance(a, ast.If) for a in ancestors(stores[0]))
+            want = (("param", call.params[4]), ("param", call.params[5]), ("attr", me, "reference_subsystem"))
+            if zcall[3] or zcall[2] != want:
+                problems.append(f"formulate_zeta_angle({', '.join([show(a)[:40] for a in zcall[2]] + [f'{k}={show(v)[:30]}' for k, v in zcall[3]])}) is not (rotated_state, aligned_subsystem, self.reference_subsystem)")
+            table = ("attr", me, "angle_definitions")
+            stores = [e for e in sx.events if e[0] == "store" and e[2][0] == "sub" and e[2][1] == table]
+            ok_store = len(stores) == 1 and stores[0][2][2] == zeta and stores[0][3] == ("item", zcall, 1) and stores[0][1] == gpc
             if not ok_store:
                 problems.append("the definition of zeta is not registered in self.angle_definitions on the general path")
-    ok_init = any(isinstance(n, ast.Assign) and unparse(n.targets[0]) == "self.reference_subsystem" and unparse(n.value) == init.params[1] for n in walk_function(init.node))
+    sxi, _, _ = _symex(tree, init.qual)
+    keeps = [e for e in sxi.events if e[0] == "store" and e[2] == ("attr", ("param", init.params[0]), "reference_subsystem")]
+    ok_init = len(init.params) > 1 and len(keeps) == 1 and keeps[0][1] == () and keeps[0][3] == ("param", init.params[1])
     if not ok_init:
         problems.append("__init__ does not keep the reference subsystem")
     ctx.verdict(not problems, "R-WIRING", f"{cls.qual}::generator", tree.loc(call.node),
                 "DPD Wigner-d generator: 1 iff j == 0, else Wigner.d(j, m, m', zeta(rotated state, aligned subsystem, own reference)) with zeta's definition registered", problems or None)
-    # components of the memoised pair
+    # components of the memoised pair: x[k] and `a, b = x` (k-th unpacked name) read the same component of the returned pair
     al = tree.cls(f"{mod}::DalitzPlotDecomposition")
     comp = {}
     for name in ("formulate_amplitude", "define_symbols"):
         m = al.methods.get(name)
-        subs_ = [n for n in walk_function(m.node) if isinstance(n, ast.Subscript) and isinstance(n.value, ast.Call) and unparse(n.value.func).endswith("_formulate_aligned_amplitude")] if m else []
-        comp[name] = (unparse(subs_[0].slice), [unparse(a) for a in subs_[0].value.args]) if len(subs_) == 1 else None
+        comp[name] = None
+        if m is None:
+            continue
+        _, mval, _ = _symex(tree, m.qual)
+        _require_known(m.qual, mval)
+        found = set()
+        for pc, val in alternatives(mval):
+            for x in subterms(val):
+                c = x[1] if x[0] in {"sub", "item"} else None
+                if c is not None and c[0] == "call" and func_name(c) == DPD_FN:
+                    k = x[2] if x[0] == "item" else x[2][1] if is_const(x[2], int) else None
+                    found.add((str(k), tuple(show(a) for a in c[2]) if not c[3] else None))
+        if len(found) == 1:
+            k, args = next(iter(found))
+            comp[name] = (k, list(args) if args is not None else None)
     ok = comp["formulate_amplitude"] == ("0", ["reaction", "self.reference_subsystem"]) and comp["define_symbols"] == ("1", ["reaction", "self.reference_subsystem"])
     ctx.verdict(ok, "R-WIRING", f"{al.qual}::components", tree.loc(al.node), "DalitzPlotDecomposition: amplitude = component 0, symbol definitions = component 1 of _formulate_aligned_amplitude(reaction, own reference subsystem)",
                 None if ok else comp)
@@ -1291,7 +1543,7 @@ def run(ctx: Check, tree: Tree) -> None:
         'R-WIRING (bound symbol): the outer helicity symbol handed to the helicity rotations and to the Wigner rotation is create_spin_projection_symbol(state) on every reaching definition',
         "R-RESTFRAME: the path that formulates Wigner angles (boost into the rotated state's rest frame) tests the particle's mass",
         'R-FULLRANGE: every summation pool of the alignment rotations is the complete range -s..s',
-        "no `.remove(x)` reachable in the package can raise: each is dominated by a membership test, inside a handler, or covered by a recorded structural invariant (R-GUARD)",
+        "no `.remove(x)` / `.index(x)` in the package can raise: each is dominated by a membership test, inside a handler, or covered by a recorded structural invariant (R-GUARD)",
         "the PoolSum of a helicity/Wigner rotation ranges over create_spin_range(s) of the same s that is j of its Wigner-D, and every caller passes spin and masslessness of the rotated state (R-WIRING)",
         "create_spin_range loops from -s in steps of +1 while <= s (R-RANGE)",
         "DPD alignment: spin, helicity symbols, state index and pool of every Wigner-d refer to the same outer state (R-WIRING)",
